@@ -27,7 +27,7 @@ def call_funct(
             _update_dict_delta(
                 dict_input=memory,
                 dict_output=input_dict["kwargs"],
-                keys_possible_lst=funct_args,
+                keys_possible_lst=funct_args[len(input_dict["args"]) :],
             )
         )
     return funct(input_dict["fn"], *input_dict["args"], **input_dict["kwargs"])
